@@ -11,9 +11,12 @@
 (***************************************************************************)
 EXTENDS FxSigma, FxViews, Json
 
-CONSTANTS Names,      \* atoms usable alone and in pairs
+CONSTANTS Names,      \* atoms usable alone (and scaled)
+          PairNames,  \* atoms usable in products of two
           Solo,       \* atoms used alone only (extreme parameter values whose products leave the 32-bit range)
           Pool,       \* atoms usable in blocks / longer chains
+          PoolBig,    \* atoms usable in the containers of six and seven blocks
+          First,      \* atoms allowed in the first slot (the universe is sharded over it; all atoms = no restriction)
           Templates
 
 VARIABLES phase, tpl, ck, bk, mode, slots, subj
@@ -26,7 +29,7 @@ Cont(kind, n) == [k |-> kind, sh |-> <<>>, dt |-> "", ch |-> [i \in 1..n |-> OpL
 Blk(kind, cont, ops) == Term(kind, 0, cont, <<>>, ops)
 
 NSlots(t) == CASE t = 1 -> 1 [] t \in {2, 3, 4, 6, 10, 11} -> 2 [] t = 5 -> 1 [] t = 7 -> 1 [] t \in {8, 9} -> 3
-SlotDomain(t) == IF t = 1 THEN Names \cup Solo ELSE IF t \in {2, 5} THEN Names ELSE Pool
+SlotDomain(t) == IF t = 1 THEN Names \cup Solo ELSE IF t = 2 THEN PairNames ELSE IF t = 5 THEN Names ELSE IF t \in {10, 11} THEN PoolBig ELSE Pool
 
 Assemble(t, c, b, x) ==
   CASE t = 1 -> x[1]
@@ -60,6 +63,7 @@ Init == /\ phase = "pick" /\ tpl \in Templates
         /\ slots = <<>> /\ subj = ErrT
 
 Pick(n) == /\ phase = "pick" /\ Len(slots) < NSlots(tpl) /\ n \in SlotDomain(tpl)
+           /\ (Len(slots) = 0 => n \in First)
            /\ slots' = Append(slots, n) /\ UNCHANGED <<phase, tpl, ck, bk, mode, subj>>
 
 \* an iterative inverse is only claimed for symmetric positive-definite operators; its transpose is
@@ -90,7 +94,7 @@ BuildRefused ==
        /\ subj' = Assemble(tpl, ck, bk, x) /\ phase' = "refused"
   /\ UNCHANGED <<tpl, ck, bk, mode, slots>>
 
-Next == (\E n \in Names \cup Pool \cup Solo : Pick(n)) \/ Build \/ BuildRefused
+Next == (\E n \in Names \cup PairNames \cup Pool \cup PoolBig \cup Solo : Pick(n)) \/ Build \/ BuildRefused
 
 -----------------------------------------------------------------------------
 Done == phase = "done"
